@@ -219,10 +219,16 @@ func newHashType2(args ...px.Value) *HashType {
 	case 2:
 		var min, max int64
 		if min, ok = toInt(args[offset]); !ok {
-			panic(illegalArgumentType(`Hash[]`, offset, `Integer`, args[offset]))
+			if _, ok = args[offset].(*DefaultValue); !ok {
+				panic(illegalArgumentType(`Hash[]`, offset, `Integer`, args[offset]))
+			}
+			min = 0
 		}
 		if max, ok = toInt(args[offset+1]); !ok {
-			panic(illegalArgumentType(`Hash[]`, offset+1, `Integer`, args[offset+1]))
+			if _, ok = args[offset+1].(*DefaultValue); !ok {
+				panic(illegalArgumentType(`Hash[]`, offset+1, `Integer`, args[offset+1]))
+			}
+			max = math.MaxInt64
 		}
 		if min == 0 && max == 0 && offset == 0 {
 			return hashTypeEmpty
